@@ -51,8 +51,16 @@ func sendEthernet(iface net.Interface, resp *dhcpv4.DHCPv4) error {
 		FixLengths:       true,
 	}
 
+	// gopacket's DHCPv4 layer does its length arithmetic in 16 bits and panics
+	// while serializing a bigger message; such a reply cannot travel in a UDP
+	// datagram anyway
+	payload := resp.ToBytes()
+	if len(payload) > 0xffff-28 {
+		return fmt.Errorf("Send Ethernet: reply of %d bytes does not fit a UDP datagram", len(payload))
+	}
+
 	// Decode a packet
-	packet := gopacket.NewPacket(resp.ToBytes(), layers.LayerTypeDHCPv4, gopacket.NoCopy)
+	packet := gopacket.NewPacket(payload, layers.LayerTypeDHCPv4, gopacket.NoCopy)
 	dhcpLayer := packet.Layer(layers.LayerTypeDHCPv4)
 	dhcp, ok := dhcpLayer.(gopacket.SerializableLayer)
 	if !ok {
